@@ -335,11 +335,18 @@ fn monitor(three: bool) -> QualMon {
 /// interval-level world: one transition = what each master does in one announce interval,
 /// then the interval's BMCA run (or no BMCA), so that long horizons close
 pub fn interval_system(mon: &QualMon, start_seq: u16) -> WorldSys<'_, QualMon> {
-    let node = NodeSpec::default();
+    interval_system_at(mon, start_seq, 0)
+}
+
+/// the same world with every announce interval at 2^log_announce seconds
+pub fn interval_system_at(mon: &QualMon, start_seq: u16, log_announce: i8) -> WorldSys<'_, QualMon> {
+    let mut node = NodeSpec::default();
+    node.ports[0].log_announce = log_announce;
     let mut cfg = WorldCfg { node: node.clone(), ..Default::default() };
     cfg.peers = vec![Peer::gm(1, 1), Peer::gm(2, 2), own_clock_peer(&node, 9), own_clock_better(&node)];
     for p in &mut cfg.peers {
         p.announce_seq = start_seq;
+        p.log_announce = log_announce;
     }
     // per master: absent / one fresh / fresh + duplicate (stale ids and skipped BMCA runs are
     // in the event-level worlds); arrivals before or after the interval's BMCA run
@@ -370,7 +377,8 @@ pub fn interval_system(mon: &QualMon, start_seq: u16) -> WorldSys<'_, QualMon> {
     macros.push(vec![Ev::Ann(0, 3), Ev::Ann(0, 3), Ev::Bmca]);
     macros.push(vec![Ev::Ann255(0, 0), Ev::Ann255(0, 0), Ev::Bmca]);
     let alphabet = (0..macros.len()).map(Ev::Macro).collect();
-    WorldSys { property: "C06", name: format!("intervals-seq{start_seq}"), cfg, seed: vec![], alphabet, obedient: false, monitor: mon, macros }
+    let name = if log_announce == 0 { format!("intervals-seq{start_seq}") } else { format!("intervals-seq{start_seq}-log{log_announce}") };
+    WorldSys { property: "C06", name, cfg, seed: vec![], alphabet, obedient: false, monitor: mon, macros }
 }
 
 fn same_prefix(a: &serde_json::Value, b: &serde_json::Value) -> Option<String> {
@@ -396,6 +404,11 @@ pub fn run(tier: Tier) -> i32 {
     all.push(systems(&mon2, 65533, false).remove(0));
     all.push(interval_system(&mon2, 0));
     all.push(interval_system(&mon2, 65533));
+    // the same interval-level world at announce intervals of 1/8 s, 4 s and 16 s: the window
+    // scales with the interval, so the state graphs must agree level by level
+    for la in [-3i8, 2, 4] {
+        all.push(interval_system_at(&mon2, 0, la));
+    }
     if tier == Tier::Thorough {
         all.push(systems(&mon2, 0, false).remove(1));
         all.extend(systems(&mon3, 0, true));
@@ -489,6 +502,16 @@ pub fn run(tier: Tier) -> i32 {
                 signature: "behaviour-depends-on-absolute-sequence-ids".into(),
                 message: format!("worlds {} and {} differ only in the masters' starting sequence id (0 vs 65533) but their canonical state graphs differ at {diff}: ids around the 65535->0 wrap are treated differently", w[i]["world"], w[j]["world"]),
                 replay: json!({"note": "compare worlds", "a": w[i]["world"], "b": w[j]["world"]}),
+            });
+        }
+    }
+    let base = w.iter().find(|x| x["world"] == "intervals-seq0").cloned();
+    for x in w.iter().filter(|x| x["world"].as_str().map(|n| n.starts_with("intervals-seq0-log")).unwrap_or(false)) {
+        if let (Some(b), Some(diff)) = (&base, base.as_ref().and_then(|b| same_prefix(b, x))) {
+            rep.violation(Violation {
+                signature: "behaviour-depends-on-the-announce-interval".into(),
+                message: format!("worlds {} and {} differ only in the announce interval but their state graphs differ at {diff}", b["world"], x["world"]),
+                replay: json!({"note": "compare worlds", "a": b["world"], "b": x["world"]}),
             });
         }
     }
